@@ -99,8 +99,8 @@ and `sch` contains no `PackIntMod(m)` with `m < 2`, no `PackList([])`, no `PackR
 those `pack.py` itself fails (`C16_cex_pack_mod1`, `C16_cex_pack_empty`).
 
 Recorded deviations (the property as worded is NOT true of `pack.py`):
-* C16-pack-bool: `PackBool().pack(LinCombBool)` raises `NotImplementedError` (`C16_cex_pack_bool`);
-* C16-pack-bool (second half): `PackIntMod.unpack` of the bits produced by `PackIntMod.pack(LinComb)`
+* (C16-pack-bool, `PackBool().pack(LinCombBool)` raised `NotImplementedError`: repaired, `C16_pack_bool_lcb`);
+* C16-unpack-unchecked: `PackIntMod.unpack` of the bits produced by `PackIntMod.pack(LinComb)`
   returns the right VALUE but through the plain branch: no `assert_lt(mod)` is emitted, and `pack`
   itself only enforces `< 2^bitlen` (`C16_pack_secret_partial`, `C16_cex_pack_secret_range`). -/
 
@@ -158,13 +158,17 @@ theorem C16_pack_secret_accept {m : Nat} {x : LinComb} {s : St} (hg : s.guard = 
 
 /-! ## closed counterexamples (recorded deviations) -/
 
-/-- C16-pack-bool: packing a secret boolean raises `NotImplementedError` (for every `b`, `s`) -/
-theorem C16_cex_pack_bool_all (b : LinComb) (s : St) : packV .bool (.lcb b) s = .error .notimpl :=
-  (packBool_lcb b s).1
+/-- (was the recorded deviation C16-pack-bool, repaired in /repo) `PackBool` on a secret of the boolean
+type: identity both ways, for every boolean, position and state — no constraint, no wire -/
+theorem C16_pack_bool_lcb (b : LinComb) (pre rest : List Val) (s : St) :
+    packV .bool (.lcb b) s = .ok (.list [.lcb b], s) ∧
+    unpackV .bool (pre ++ [.lcb b] ++ rest) pre.length s = .ok (.lcb b, s) :=
+  ⟨(packBool_lcb b pre rest s).1, (packBool_lcb b pre rest s).2.1⟩
 
-theorem C16_cex_pack_bool :
-    (match (do let b ← privValBool 1; packV .bool (.lcb b)) (St.init 97 8 8) with
-      | .error .notimpl => true | _ => false) = true := by decide +kernel
+/-- the hypotheses are met by a traced run: a declared boolean secret packs to itself -/
+example :
+    (match (do let b ← privValBool 1; let r ← packB .bool (.lcb b); unpackV .bool r 0) (St.init 97 8 8) with
+      | .ok (.lcb b, s) => b.value == 1 && s.cons.length == 1 | _ => false) = true := by decide +kernel
 
 /-- the secret round trip does not range-check: `PackIntMod(5)` accepts the secret 7 (≥ mod, < 2^3),
 and `unpack` returns value 7 adding no constraint (4 constraints = 3 booleanity + 1 sum, all from
